@@ -12,6 +12,7 @@ import (
 	"fmt"
 	"os"
 	stdregexp "regexp"
+	"regexp/syntax"
 	"sort"
 	"strings"
 	"testing"
@@ -99,16 +100,99 @@ func vfC28Canon(files []zoekt.FileMatch) string {
 	return strings.Join(out, " | ")
 }
 
-// first literal rune of the compiled pattern that has a fold partner of different UTF-8 length
+// first case-folded LITERAL rune of the compiled pattern (as the engines parse it) that has a fold partner of different
+// UTF-8 length: the only situation in which the vendored engine's case-insensitive prefix scan is known to miss matches
 func vfC28MixedFold(p string) string {
-	for _, c := range p {
-		for y := unicode.SimpleFold(c); y != c; y = unicode.SimpleFold(y) {
-			if utf8.RuneLen(y) != utf8.RuneLen(c) {
-				return fmt.Sprintf("U+%04X", c)
+	re, err := syntax.Parse(p, syntax.Perl)
+	if err != nil {
+		return ""
+	}
+	out := ""
+	var walk func(re *syntax.Regexp)
+	walk = func(re *syntax.Regexp) {
+		if out != "" {
+			return
+		}
+		if re.Op == syntax.OpLiteral && re.Flags&syntax.FoldCase != 0 {
+			for _, c := range re.Rune {
+				for y := unicode.SimpleFold(c); y != c; y = unicode.SimpleFold(y) {
+					if utf8.RuneLen(y) != utf8.RuneLen(c) && out == "" {
+						out = fmt.Sprintf("U+%04X", c)
+					}
+				}
+			}
+		}
+		for _, s := range re.Sub {
+			walk(s)
+		}
+	}
+	walk(re)
+	return out
+}
+
+func vfC28RunOne(d *indexData, contents [][]byte, c int, id int, p string, cs bool, setting string) {
+	q, err := query.RegexpQuery(p, true, false)
+	if err != nil || len(p) > 100 {
+		return
+	}
+	compiled := ""
+	switch x := q.(type) {
+	case *query.Regexp:
+		x.CaseSensitive = cs
+		compiled = syntaxutil.RegexpString(x.Regexp)
+	case *query.Substring:
+		x.CaseSensitive = cs
+		compiled = stdregexp.QuoteMeta(x.Pattern)
+	}
+	if !cs {
+		compiled = "(?i)" + compiled
+	}
+	res := func() (out string) {
+		defer func() {
+			if e := recover(); e != nil {
+				out = "PANIC: " + fmt.Sprint(e)
+				if len(out) > 300 {
+					out = out[:300]
+				}
+			}
+		}()
+		sr, err := d.Search(context.Background(), q, &zoekt.SearchOptions{ChunkMatches: true})
+		if err != nil {
+			return "ERROR: " + err.Error()
+		}
+		return vfC28Canon(sr.Files)
+	}()
+	// classification aid (independent of the setting): which engine, run directly on the documents, deviates from Go's
+	// standard engine, and does RE2 report a match boundary inside a UTF-8 sequence?
+	grafanaEqStd, re2EqStd, re2InsideRune := true, true, false
+	if se, err2 := stdregexp.Compile(compiled); err2 == nil {
+		ge, err1 := regexp.Compile(compiled)
+		re, err3 := re2regexp.Compile(compiled)
+		for _, content := range contents {
+			want := fmt.Sprint(se.FindAllIndex(content, -1))
+			if err1 == nil && fmt.Sprint(ge.FindAllIndex(content, -1)) != want {
+				grafanaEqStd = false
+			}
+			if err3 == nil {
+				got := re.FindAllIndex(content, -1)
+				if fmt.Sprint(got) != want {
+					re2EqStd = false
+				}
+				for _, m := range got {
+					for _, o := range m {
+						if o < len(content) && !utf8.RuneStart(content[o]) {
+							re2InsideRune = true
+						}
+					}
+				}
+			} else {
+				re2EqStd = false
 			}
 		}
 	}
-	return ""
+	vfEmit(map[string]any{"kind": "c28res", "id": fmt.Sprintf("%d/%d", c, id), "corpus": c, "pattern": p, "case_sensitive": cs, "compiled": compiled,
+		"setting": setting, "result": res, "nontrivial": res != "" && !strings.HasPrefix(res, "PANIC") && !strings.HasPrefix(res, "ERROR"),
+		"grafana_eq_std": grafanaEqStd, "re2_eq_std": re2EqStd, "re2_inside_rune": re2InsideRune, "mixed_fold_rune": vfC28MixedFold(compiled), "kindq": fmt.Sprintf("%T", q)})
 }
 
 func TestVerifC28(t *testing.T) {
@@ -116,6 +200,33 @@ func TestVerifC28(t *testing.T) {
 	setting, isSet := os.LookupEnv("ZOEKT_RE2_THRESHOLD_BYTES")
 	if !isSet {
 		setting = "(unset)"
+	}
+	if rp := vfReplay(); rp != nil {
+		if inner, ok := rp["replay"].(map[string]any); ok {
+			pat, _ := inner["pattern"].(string)
+			cs, _ := inner["case_sensitive"].(bool)
+			if doc, ok := inner["smallest_differing_document"].(map[string]any); ok && pat != "" {
+				content, _ := doc["content"].(string)
+				b, err := NewShardBuilder(&zoekt.Repository{Name: "r"})
+				if err != nil {
+					t.Fatal(err)
+				}
+				if err := b.Add(Document{Name: "replay.txt", Content: []byte(content)}); err != nil {
+					t.Fatal(err)
+				}
+				var buf bytes.Buffer
+				if err := b.Write(&buf); err != nil {
+					t.Fatal(err)
+				}
+				s, err := NewSearcher(&vfC28Mem{buf.Bytes()})
+				if err != nil {
+					t.Fatal(err)
+				}
+				vfEmit(map[string]any{"kind": "c28corpus", "corpus": 0, "docs": []map[string]any{{"name": "replay.txt", "bytes": len(content), "content": content}}})
+				vfC28RunOne(s.(*indexData), [][]byte{[]byte(content)}, 0, 0, pat, cs, setting)
+				return
+			}
+		}
 	}
 	nq := vfN(240)
 	ncorp := 6
@@ -160,68 +271,7 @@ func TestVerifC28(t *testing.T) {
 			}
 			cs := r.Chance(50)
 			id++
-			q, err := query.RegexpQuery(p, true, false)
-			if err != nil || len(p) > 100 {
-				continue
-			}
-			compiled := ""
-			switch x := q.(type) {
-			case *query.Regexp:
-				x.CaseSensitive = cs
-				compiled = syntaxutil.RegexpString(x.Regexp)
-			case *query.Substring:
-				x.CaseSensitive = cs
-				compiled = stdregexp.QuoteMeta(x.Pattern)
-			}
-			if !cs {
-				compiled = "(?i)" + compiled
-			}
-			res := func() (out string) {
-				defer func() {
-					if e := recover(); e != nil {
-						out = "PANIC: " + fmt.Sprint(e)
-						if len(out) > 300 {
-							out = out[:300]
-						}
-					}
-				}()
-				sr, err := d.Search(context.Background(), q, &zoekt.SearchOptions{ChunkMatches: true})
-				if err != nil {
-					return "ERROR: " + err.Error()
-				}
-				return vfC28Canon(sr.Files)
-			}()
-			// classification aid (independent of the setting): which engine, run directly on the documents, deviates from Go's
-			// standard engine, and does RE2 report a match boundary inside a UTF-8 sequence?
-			grafanaEqStd, re2EqStd, re2InsideRune := true, true, false
-			if se, err2 := stdregexp.Compile(compiled); err2 == nil {
-				ge, err1 := regexp.Compile(compiled)
-				re, err3 := re2regexp.Compile(compiled)
-				for _, content := range contents {
-					want := fmt.Sprint(se.FindAllIndex(content, -1))
-					if err1 == nil && fmt.Sprint(ge.FindAllIndex(content, -1)) != want {
-						grafanaEqStd = false
-					}
-					if err3 == nil {
-						got := re.FindAllIndex(content, -1)
-						if fmt.Sprint(got) != want {
-							re2EqStd = false
-						}
-						for _, m := range got {
-							for _, o := range m {
-								if o < len(content) && !utf8.RuneStart(content[o]) {
-									re2InsideRune = true
-								}
-							}
-						}
-					} else {
-						re2EqStd = false
-					}
-				}
-			}
-			vfEmit(map[string]any{"kind": "c28res", "id": fmt.Sprintf("%d/%d", c, id), "corpus": c, "pattern": p, "case_sensitive": cs, "compiled": compiled,
-				"setting": setting, "result": res, "nontrivial": res != "" && !strings.HasPrefix(res, "PANIC") && !strings.HasPrefix(res, "ERROR"),
-				"grafana_eq_std": grafanaEqStd, "re2_eq_std": re2EqStd, "re2_inside_rune": re2InsideRune, "mixed_fold_rune": vfC28MixedFold(compiled), "kindq": fmt.Sprintf("%T", q)})
+			vfC28RunOne(d, contents, c, id, p, cs, setting)
 		}
 		d.Close()
 	}
